@@ -35,6 +35,9 @@ theorem step_ok (st : State) (c : Char) (hs : StateOK st) :
     simp only [step]
     repeat' split
     all_goals simp [StateOK]
+  | backslashCr =>
+    simp only [step]
+    split <;> simp [StateOK]
   | unicode =>
     simp only [step]
     split <;> simp [StateOK]
@@ -68,7 +71,8 @@ theorem step_ok (st : State) (c : Char) (hs : StateOK st) :
 theorem cookLoop_no_unwrap (st : State) (text acc : List Char) (hs : StateOK st) :
     cookLoop st text acc ≠ .error .unwrapFailed := by
   induction text generalizing st acc with
-  | nil => simp only [cookLoop]; split <;> simp
+  | nil => simp only [cookLoop]; repeat' split
+           all_goals simp
   | cons c cs ih =>
     simp only [cookLoop]
     have h := step_ok st c hs
